@@ -177,8 +177,8 @@ def main(argv):
             known_hit.setdefault(key, []).append(v)
         else:
             unknown.append(v)
-    # violations beyond the per-shard cap were counted but not kept; they can only be
-    # suppressed if every kept one of that shard was known -- be conservative:
+    # witnesses beyond the per-mechanism cap were counted but not kept; every mechanism keeps
+    # its first witnesses, so an unknown mechanism is never hidden behind a known one
     uncounted = m['n_violations'] - len(m['violations'])
 
     # inconclusive?
